@@ -10,6 +10,7 @@ vars == <<a, m, hist>>
 Events == [op : {"enter"}, kind : Kinds, how : {"-"}, i : {0}]
           \cup [op : {"exit"}, kind : {"-"}, how : {"normal", "exception"}, i : {0}]
           \cup [op : {"new", "next", "close", "drop", "drain"}, kind : {"-"}, how : {"-"}, i : 1..NIter]
+          \cup [op : {"evalthe"}, kind : {"-"}, how : {"-"}, i : {0}]
 
 Init == a = InitA /\ m = InitM /\ hist = <<>>
 Do(ev) == /\ PreA(ev, a, MaxBlocks)
